@@ -68,8 +68,8 @@ def c09(F, R, tier):
 
 
 @prop("C11",
-      technique="static: symbolic evaluation of the extracted printer tables on operator trees, re-read by a model of the extracted PEG choice order and Pratt table; Display/FromStr table agreement",
-      explanation="Decides (PRINT-PARSE) for PreExp: for every parent/child operator pair and side (and every grandchild chain whose pairs pass) the text produced by the printer functions, evaluated from their typed HIR on symbolic trees, is re-read by the extracted grammar literals (ordered choice) and the extracted Pratt table into a tree equal to the original modulo real/Boolean associativity identities; (T-PREC/T-ASSOC) precedence() is order-isomorphic to the Pratt levels and is_left_associative() agrees with the table; (S-TOKENS) for every fieldless enum with both Display and FromStr, from_str(display(v)) = v, and displayed operator/comparison tokens are selected by the grammar rule that maps back to the same variant; (OBJ-HEADER) the objective line the PreObjective printer writes for each OptimizationType is a sentence of an alternative of the grammar rule `objective` (keyword, body or no body) whose keyword parses back to the same variant; (NUM-FORMAT) every float written by a function reachable from the formatter's Display impl (following resolved callees and the Display impls of formatted values) uses the decimal `{}`/`{:.N}` form, never Debug or an exponent form, which the grammar's number rule does not contain. NOT decided: rendering of iterations, blocks, graphs, declarations beyond token agreement; textual idempotence of whole programs.",
+      technique="static: symbolic evaluation of the extracted printer tables on operator trees, re-read by a model of the extracted PEG choice order and Pratt table; Display/FromStr table agreement; bounded symbolic round trip text -> pest-matcher model -> converters (HIR) -> printers (HIR) -> text over grammar-generated program families",
+      explanation="Decides (PRINT-PARSE) for PreExp: for every parent/child operator pair and side (and every grandchild chain whose pairs pass) the text produced by the printer functions, evaluated from their typed HIR on symbolic trees, is re-read by the extracted grammar literals (ordered choice) and the extracted Pratt table into a tree equal to the original modulo real/Boolean associativity identities; (T-PREC/T-ASSOC) precedence() is order-isomorphic to the Pratt levels and is_left_associative() agrees with the table; (S-TOKENS) for every fieldless enum with both Display and FromStr, from_str(display(v)) = v, and displayed operator/comparison tokens are selected by the grammar rule that maps back to the same variant; (OBJ-HEADER) the objective line the PreObjective printer writes for each OptimizationType is a sentence of an alternative of the grammar rule `objective` (keyword, body or no body) whose keyword parses back to the same variant; (NUM-FORMAT) every float written by a function reachable from the formatter's Display impl (following resolved callees and the Display impls of formatted values) uses the decimal `{}`/`{:.N}` form, never Debug or an exponent form, which the grammar's number rule does not contain. (ROUND-TRIP) for every text of three bounded families -- (A) the ~200 program texts the repository itself contains, (B) one text per choice alternative / optional part / repetition of the grammar, (C) ~190 expression forms placed in every expression slot of the grammar, nested one level (quick: ~2 200 programs, thorough: ~8 600) -- the text is matched by a model of pest's matcher over the dumped grammar (ordered choice, implicit whitespace, atomicity, node tags as pest assigns them), converted by the crate's own converters and printed by the crate's own Display impls, both evaluated from their typed HIR with pest's Pair/Pairs/PrattParser API modelled; obligations: the converters do not panic (pest's Pratt loop) on an accepted text, the formatted text is accepted and converted again, its AST equals the original up to spans, numeric literal kinds and literal name fragments, and formatting it again gives the same text. NOT decided: programs outside the families (deeper nestings), comments (dropped by the grammar), that equal ASTs compile to equal models (that is the transformer).",
       assumptions=["pest 2.9 Pratt semantics as read from its source"])
 def c11(F, R, tier):
     import c11 as mod
@@ -78,6 +78,8 @@ def c11(F, R, tier):
     objhdr.check(F, R, get_grammar(), "C11")
     import c12
     c12.num_format(F, R, ["<parser::pre_model::PreModel as std::fmt::Display>::fmt"])
+    import c11rt
+    c11rt.check(F, R, get_grammar(), tier)
 
 
 @prop("C12",
